@@ -3,7 +3,31 @@
 ALLOC_RUN = {"harness": "halloc", "driver": "allocdrv", "fields": None, "corpus": "conc-alloc",
              "quick": {"n": 400, "shards": 12}, "thorough": {"n": 4000, "shards": 32}}
 
+JOBQ_RUN = {"harness": "hjobq", "driver": "jobqdrv", "fields": None, "corpus": "conc-jobq",
+            "quick": {"n": 250, "shards": 12}, "thorough": {"n": 2500, "shards": 32}}
+
 PROPS = {
+    "C05": {
+        "manifest": {
+            "text": "Lean theorems over all action sequences of a transition system that mirrors Conn.Execute/MustExecute/execute at "
+                    "critical-section granularity (any number of drainer closures in the state; that there is at most one is proved): "
+                    "one at a time, FIFO, exactly once, no lost job in the hand-over race, closed refuses / MustExecute accepts, a panic "
+                    "is followed by the hand-over step, completion, close handler after all earlier jobs; the model is tied to the real "
+                    "code by replaying generated schedules at the model's granularity (gated jobs, inline / goroutine / bounded-pool / "
+                    "parking executors set through Engine.Execute) and comparing events, return values and queue lengths after the "
+                    "implementation has become stable; a log-only oracle checks the property on the implementation alone",
+            "note": "interleavings of the real code are not enumerated: Lean quantifies over all schedules of the model, the harness "
+                    "replays chosen ones; atomicity of the model steps rests on the mutex structure of the three functions (read, not "
+                    "extracted); concurrent bursts are free-running and compared through the observed run order",
+            "technique": "Lean 4 proof (inductive invariant of a transition system) + schedule replay / differential correspondence"},
+        "lean": ["NbioVerif.Properties.C05"], "drivers": ["jobqdrv"], "harness": ["hjobq"],
+        "runs": [JOBQ_RUN],
+        "oracles": ["c05-"],
+        "rule": "case = (executor kind, #conns, schedule of submit / spawn / finish(panic) / close / burst ops); distinct by hash of "
+                "(config, per-op kind, conn, must, nested, closed, panic); non-trivial iff a job finished or a burst ran",
+        "assumptions": ["a model step is atomic in the code: Execute/MustExecute/execute touch closed/jobList only under c.mux",
+                        "the executor eventually runs what it is given (scheduler fairness)"],
+    },
     "C20": {
         "manifest": {
             "text": "Lean theorems on an abstract-heap model of the three mempool allocators (regions, handles, sync.Pool as a bag with the "
